@@ -346,6 +346,13 @@ def fam_slots(rng, cfgs=(CFG_A, CFG_B, CFG_C)):
         ops = [reg(1), add(1, 1, valid(1, 3)), sub(1), mine([D(1), P(1, 3)]), get(1, 1), sub(1),
                add(1, 1, repl), sub(1), get(1, 1), add(1, 1, repl), sub(1), add(1, 1, garbled(10)), sub(1), add(1, 2, valid(2)), sub(1)]
         out.append(scen("slots-replace-resolved-%d" % k, CFG_A, ops))
+    # ... the same state reached because the NODE said the penalty is already on chain (it is not): the replacement's penalty is
+    # then taken by the node, so the replacement is what must be held (and charged for) from now on, with its tracker
+    for k, v in enumerate((1, 5, 2, 4)):
+        ops = [reg(1), reg(2), add(1, 1, valid(1, 3)), add(2, 1, valid(1, 3)), sub(1), {"op": "verdict", "tx": P(1, 3), "v": "res", "times": 2},
+               mine([D(1)]), get(1, 1), sub(1), add(1, 1, valid(1, v)), sub(1), get(1, 1), get(2, 1), sub(2), mine([P(1, v)]), get(1, 1), sub(1),
+               add(1, 2, valid(2)), sub(1)]
+        out.append(scen("slots-replace-resolved-taken-%d" % k, CFG_A, ops))
     return out
 
 
